@@ -359,9 +359,10 @@ def parse_rule(rule):
     # If the rule is a string, it's in the policy language
     if isinstance(rule, str):
         return _parse_text_rule(rule)
-    if rule is None or isinstance(rule, (list, tuple)):
+    if isinstance(rule, (list, tuple)):
         return _parse_list_rule(rule)
 
-    # Anything else (a boolean, a number, a mapping) is not a rule; fail closed
+    # Anything else (null, a boolean, a number, a mapping) is not a rule; fail
+    # closed.  Note that an unquoted ``!`` in a YAML file is read as null.
     LOG.error('Failed to understand rule %s', rule)
     return _checks.FalseCheck()
